@@ -289,6 +289,31 @@ def tol_for(*reps, base=1e-9):
     return tol
 
 
+def loading_tol(sl, sm, tl, tm, base=1e-9):
+    """Tolerance for a loading conversion [sl per sm] -> [tl per tm]: rounded constants count only where a
+    representation actually changes; fraction/percent borrow the unit of the material representation."""
+    if (sl, sm) == (tl, tm):
+        return base
+    tol = base
+    if sl != tl:
+        tol += UNIT_INACCURACY.get(sl[1], 0.0) + UNIT_INACCURACY.get(tl[1], 0.0)
+    if sm != tm:
+        tol += UNIT_INACCURACY.get(sm[1], 0.0) + UNIT_INACCURACY.get(tm[1], 0.0)
+    f_s, f_t = sl[0] in ("fraction", "percent"), tl[0] in ("fraction", "percent")
+    if f_s != f_t or (f_s and f_t and sm != tm):
+        if f_s:
+            tol += UNIT_INACCURACY.get(sm[1], 0.0)
+        if f_t:
+            tol += UNIT_INACCURACY.get(tm[1], 0.0)
+    return tol
+
+
+def pressure_tol(sp, tp, base=1e-9):
+    if sp == tp:
+        return base
+    return base + UNIT_INACCURACY.get(sp[1], 0.0) + UNIT_INACCURACY.get(tp[1], 0.0)
+
+
 def check_names_against_library():
     """Start-up consistency check of the *names* (not values) against the library tables."""
     from pygaps.units import converter_mode as cm
